@@ -236,7 +236,7 @@ func c05RandDate(r *fw.Rand) (y, m, d int) {
 }
 
 func c05Pairs(c *fw.Ctx, k int) {
-	n := 2000
+	n := 8000
 	if c.Thorough() {
 		n = 62500
 	}
